@@ -11,13 +11,22 @@ def main():
     out, tier = sys.argv[1], sys.argv[2]
     jobs = json.loads(sys.argv[3])
     obs = []
+    def guarded(fn, method, how):
+        # billiard's bookkeeping of *earlier* children runs inside start() / active_children():
+        # a call that raises because of it is what the parent sees, not a harness failure
+        try:
+            return fn()
+        except Exception as exc:      # noqa
+            st = {'method': method, 'how': list(how), 'phase': 'new'}
+            return [{'act': {'e': 'init'}, 'state': st},
+                    {'act': {'e': 'api_error', 'call': 'scenario', 'what': type(exc).__name__}, 'state': st}]
     for method, how, si in jobs:
         sched = procs.SCHEDULES[si]
-        obs.append(procs.scenario(method, tuple(how), sched))
-    obs.append(procs.start_in_child())
+        obs.append(guarded(lambda: procs.scenario(method, tuple(how), sched), method, how))
+    obs.append(guarded(procs.start_in_child, 'fork', ['return']))
     # a parent that is itself a child of another start method
-    obs.append(procs.nested('forkserver', 'fork', ('exit', 3), 2))
-    obs.append(procs.nested('spawn', 'fork', ('signal', 9), 3))
+    obs.append(guarded(lambda: procs.nested('forkserver', 'fork', ('exit', 3), 2), 'fork', ['exit', 3]))
+    obs.append(guarded(lambda: procs.nested('spawn', 'fork', ('signal', 9), 3), 'fork', ['signal', 9]))
     if tier == 'thorough':
         obs.append(procs.nested('fork', 'spawn', ('exit', 0), 1))
         obs.append(procs.nested('forkserver', 'forkserver', ('return',), 0))
